@@ -46,7 +46,7 @@ func NewGroups(groups []*flows.Group, modification GroupsModification) *GroupsMo
 
 // Apply applies this modification to the given contact
 func (m *GroupsModifier) Apply(eng flows.Engine, env envs.Environment, sa flows.SessionAssets, contact *flows.Contact, log flows.EventCallback) bool {
-	if contact.Status() == flows.ContactStatusBlocked || contact.Status() == flows.ContactStatusStopped {
+	if contact.Status() != flows.ContactStatusActive {
 		log(events.NewErrorf("can't add blocked or stopped contacts to groups"))
 		return false
 	}
